@@ -1,6 +1,7 @@
 import Blots.Lemmas.PrattRoundTrip
 import Blots.Lemmas.IdentLemmas
 import Blots.Lemmas.ExprPegLemmas
+import Blots.Model.Json
 /-
   C10 — the precedence table, and the round trip between the printer's parenthesisation
   rule and the Pratt parser.
@@ -25,15 +26,20 @@ import Blots.Lemmas.ExprPegLemmas
   a character that is not one of those.
 
   Text level (third part): `Blots.ExprPeg` (Model/ExprPeg.lean) is a character-level PEG model
-  of the grammar rule `expression` for the OPERATOR FRAGMENT — terms `bool | null | identifier
-  | number (ASCII digits) | nested_expression`, prefix `-` `!` `not`, postfix `!`, all 26
-  binary operators through `infix_usage` with the layout the grammar admits (rule texts pinned
-  by the translator, operator literals and their order generated).  `exprItems fuel text` is
-  the item sequence pest hands to the Pratt parser, `parseText` the whole pipeline text → tree.
-  `CST` (Lemmas/ExprPegLemmas.lean) are concrete syntax trees: operator trees with every
-  layout string and every parenthesis written out; `canon t` is the one `exprToSource` writes.
-  `Frag t`: `t` is built from binary operators, prefix `-` / `!`, postfix `!` over atoms
-  (non-reserved identifiers, built-in names, `true false null`, integers 0 ≤ n < 10^15).
+  of the grammar rule `expression` for a FRAGMENT — terms `conditional | lambda | list | bool | null |
+  identifier | number (ASCII digits) | nested_expression` (a lambda body by the rule
+  `lambda_expression`, which has no `via` / `into` / `where` at its top level), prefix `-` `!` `not`, all four postfix forms (`!`,
+  index `access`, `call_list` with spread arguments and the optional trailing comma, field
+  `dot_access`), all 26 binary operators through `infix_usage`, each with the layout the
+  grammar admits (rule texts pinned by the translator, operator literals and their order
+  generated).  `exprItems fuel text` is the item sequence pest hands to the Pratt parser,
+  `parseText` the whole pipeline text → tree.  `CST` (Lemmas/ExprPegLemmas.lean) are concrete
+  syntax trees: the tree with every layout string and every parenthesis written out; `canon t`
+  is the one `exprToSource` writes.  `Frag t`: `t` is built from binary operators, prefix `-`
+  / `!`, postfix `!`, calls `f(a, ...b)`, index `e[i]`, field `e.name` (an identifier that is
+  not a reserved word), list literals `[a, ...b]` without comments, lambdas `(x, y?, ...r) =>
+  body` (argument names that are identifiers), conditionals `if c then a else b`, over atoms (non-reserved identifiers, built-in names, `true false
+  null`, integers 0 ≤ n < 10^15).
 -/
 namespace Blots.C10
 open Blots.PrattRT
@@ -309,9 +315,10 @@ open Blots.ExprPeg
     succeeds with SOME fuel gives the same answer with every fuel from `fuelFor` upwards:
     `none` from `exprItems (fuelFor cs) cs` is a genuine "no match". -/
 theorem peg_fuel_suffices (cs : List Char) :
-    (∀ f, fuelFor cs ≤ f → exprR f cs ≠ .out) ∧
-    (∀ f x, exprR f cs = .ok x → ∀ f', fuelFor cs ≤ f' → exprItems f' cs = some x) :=
-  ⟨fun f hf => (fuel_suffices f cs).1 hf, fun _ _ hx => exprItems_of_exprR hx⟩
+    (∀ lam f, fuelFor cs ≤ f → exprR lam f cs ≠ .out) ∧
+    (∀ f x, exprR false f cs = .ok x → ∀ f', fuelFor cs ≤ f' → exprItems f' cs = some x) :=
+  ⟨fun lam f hf => (fuel_suffices f cs).e lam (by unfold fuelFor at hf; omega),
+    fun _ _ hx => exprItems_of_exprR hx⟩
 
 /-- What the printer writes IS a concrete syntax tree of the fragment: `canon t` has the text
     `exprToSource t`, the item sequence `items t` of `pratt_roundtrip`, the tree `t`, and is
@@ -319,16 +326,29 @@ theorem peg_fuel_suffices (cs : List Char) :
 theorem printer_output_is_cst (t : Expr) (h : Frag t) :
     (canon t).text = (exprToSource t).toList ∧ (canon t).items = items t ∧ (canon t).tree = t ∧
       (canon t).WF :=
-  ⟨canon_text t h, canon_items t h, canon_tree t h, canon_wf t h⟩
+  ⟨canon_text_frag t h, canon_items_frag t h, canon_tree_frag t h, canon_wf t h⟩
 
 /-- MAIN LEMMA at text level (unbounded depth, structural induction): in front of any `rest`
-    that does not continue a word, and whatever follows (`After`: postfix operators, then the
-    operator tail), the `expression` rule splits the text of a well-formed concrete syntax
-    tree into exactly its items. -/
+    that ends a term (`TEnd`: it continues neither a word nor a lambda head — since lambdas are
+    in the grammar model an identifier or a parenthesised name followed by `=>` is a lambda) and
+    that, when the tree ends with a lambda body, continues no expression (`Closes`), and
+    whatever follows (`After`: postfix operators, then the operator tail), the `expression`
+    rule splits the text of a well-formed concrete syntax tree into exactly its items.
+    (With only `Boundary rest`, as before lambdas were modelled, the statement is false:
+    `x` in front of ` => 1` is the head of a lambda.) -/
 theorem cst_text_reaches_tail (c : CST) (h : c.WF) (rest : List Char) (its : List PItem)
-    (r : List Char) (hb : Blots.Ident.Boundary rest) (hk : After rest its r) :
-    ∃ fuel, exprR fuel (c.text ++ rest) = .ok (c.items ++ its, r) :=
-  lex_cst c h.1 h.2 rest its r hb hk
+    (r : List Char) (hb : TEnd rest)
+    (hc : c.isParen = false → endsOpen c.tree = true → Closes rest) (hk : After false rest its r) :
+    ∃ fuel, exprR false fuel (c.text ++ rest) = .ok (c.items ++ its, r) :=
+  lex_cst false c h.1 h.2 (fun e => by cases e) rest its r hb hc hk
+
+/-- … and the `lambda_expression` rule, for a tree without `via` / `into` / `where` at its top
+    level (`LamSafe`) -/
+theorem cst_text_reaches_tail_lambda_body (c : CST) (h : c.WF) (hs : LamSafe c.items)
+    (rest : List Char) (its : List PItem) (r : List Char) (hb : TEnd rest)
+    (hc : c.isParen = false → endsOpen c.tree = true → Closes rest) (hk : After true rest its r) :
+    ∃ fuel, exprR true fuel (c.text ++ rest) = .ok (c.items ++ its, r) :=
+  lex_cst true c h.1 h.2 (fun _ => hs) rest its r hb hc hk
 
 /-- Every well-formed concrete syntax tree — any admissible layout, any number of redundant
     parentheses — is split by the grammar into its items, nothing left over, and parsed to its
@@ -344,21 +364,28 @@ theorem cst_text_roundtrip (c : CST) (h : c.WF) :
 theorem print_then_lex (t : Expr) (h : Frag t) (fuel : Nat)
     (hf : fuelFor (exprToSource t).toList ≤ fuel) :
     exprItems fuel (exprToSource t).toList = some (items t, []) := by
-  have := cst_lex (canon t) (canon_wf t h) fuel (by rw [canon_text t h]; exact hf)
-  rwa [canon_text t h, canon_items t h] at this
+  have := cst_lex (canon t) (canon_wf t h) fuel (by rw [canon_text_frag t h]; exact hf)
+  rwa [canon_text_frag t h, canon_items_frag t h] at this
 
 /-- TEXT-LEVEL ROUND TRIP: printing any operator tree and reading the text back — PEG
     recogniser, then Pratt parser — gives the tree. -/
 theorem text_roundtrip (t : Expr) (h : Frag t) : parseText (exprToSource t) = some t := by
   have := cst_roundtrip (canon t) (canon_wf t h)
-  rwa [canon_text t h, String.ofList_toList, canon_tree t h] at this
+  rwa [canon_text_frag t h, String.ofList_toList, canon_tree_frag t h] at this
 
 /-- LAYOUT INSENSITIVITY: replace every separator the printer wrote — the single blanks around
-    a binary operator, the nothing between a parenthesis and its content — by ANY admissible
-    layout string of that position (`Relayout`: blanks, tabs, line feeds, CR LF; around a
-    symbol operator anything including nothing, except nothing in front of `!=`; in front of a
-    word operator at least one layout atom, behind it at least one blank or tab and no line
-    break): the grammar yields the same items, and the same tree. -/
+    a binary operator, the nothing between a parenthesis and its content, the `, ` between
+    arguments — by ANY admissible layout string of that position (`Relayout`: blanks, tabs,
+    line feeds, CR LF; around a symbol operator anything including nothing, except nothing in
+    front of `!=`; in front of a word operator at least one layout atom, behind it at least one
+    blank or tab and no line break; in a call anything behind `(`, behind a comma and in front
+    of `)`, blanks only in front of a comma, optionally a trailing comma that is followed by a
+    line break; in a list the same with blanks and line breaks, and a trailing comma needs no
+    line break; inside the brackets of an index line breaks only; nothing between an operand
+    and its `(` / `[` / `.name`; in a conditional at least one blank (no line break) behind
+    `if`, at least one layout atom on each side of `then` and of `else`; in a lambda blanks in
+    front of `=>`, anything behind it, and the parentheses around a single required / optional
+    parameter may go): the grammar yields the same items, and the same tree. -/
 theorem layout_insensitive (t : Expr) (h : Frag t) (c : CST) (hr : Relayout t c) :
     (∀ fuel, fuelFor c.text ≤ fuel → exprItems fuel c.text = some (items t, [])) ∧
     parseText (String.ofList c.text) = some t := by
@@ -467,6 +494,200 @@ example : ¬ Frag (.ident "not") ∧ ¬ Frag (.un .invert xa) ∧ ¬ Frag (.num 
     Frag (.builtin "sqrt") ∧ ¬ Frag (.ident "sqrt") := by decide +kernel
 example : reads "sqrt + not_x" = some "sqrt + not_x" ∧
     Frag (.bin .add (.builtin "sqrt") (.ident "not_x")) := by decide +kernel
+
+/-! #### postfix forms: call, index, field -/
+
+private abbrev xf : Expr := .ident "f"
+/-- `(-a).b(c, ...f(1))[a + 1]!` : every postfix form, a parenthesised prefix operand, a spread
+    argument, a nested call -/
+private abbrev u3 : Expr :=
+  .fact (.access (.call (.dot (.un .negate xa) "b") [xc, .spread (.call xf [one])])
+    (.bin .add xa one))
+example : Frag u3 := by decide +kernel
+example : exprToSource u3 = "(-a).b(c, ...f(1))[a + 1]!" := by decide +kernel
+example : parseText (exprToSource u3) = some u3 := text_roundtrip u3 (by decide +kernel)
+example : items u3 = [.prim (.un .negate xa), .postDot "b",
+    .postCall [xc, .spread (.call xf [one])], .postAccess (.bin .add xa one), .postFact] := by rfl
+example : reads "(-a).b(c, ...f(1))[a + 1]!" = some "(-a).b(c, ...f(1))[a + 1]!" := by
+  decide +kernel
+
+/-- the formatter's multi-line call layout — line break and indent behind `(` and behind every
+    comma, a trailing comma, the closing parenthesis on its own line — is a re-layout:
+    `f(⏎  a,⏎  b + 1,⏎)` -/
+private abbrev u4 : Expr := .call xf [xa, .bin .add xb one]
+private abbrev c4 : CST :=
+  .call (.atom xf) [.lf, .sp, .sp]
+    (.cons false (.atom xa) [] [.lf, .sp, .sp]
+      (.last false (.bin .add (.atom xb) [.sp] [.sp] (.atom one))))
+    (.comma [] [.lf])
+example : String.ofList c4.text = "f(\n  a,\n  b + 1,\n)" := by decide +kernel
+example : Relayout u4 c4 :=
+  ⟨by rfl, ⟨trivial, ⟨trivial, rfl, ⟨trivial, trivial, by decide +kernel⟩⟩, rfl⟩⟩
+example : parseText (String.ofList c4.text) = some u4 :=
+  (layout_insensitive u4 (by decide +kernel) c4
+    ⟨by rfl, ⟨trivial, ⟨trivial, rfl, ⟨trivial, trivial, by decide +kernel⟩⟩, rfl⟩⟩).2
+example : reads "f(\n  a,\n  b + 1,\n)" = some "f(a, b + 1)" := by decide +kernel
+
+/-- WHAT THE LAYOUT CONDITIONS OF THE POSTFIX FORMS EXCLUDE, on the model (and on the real
+    parser, see the harness): `call_list` is non-atomic (blanks between its tokens) but a
+    trailing comma needs a line break behind it and a comma takes no line break in front;
+    `access` and `dot_access` are atomic (line breaks inside `[ ]`, no blanks; nothing around
+    the `.`); no layout between an operand and its postfix operator. -/
+example : reads "f( a , b )" = some "f(a, b)" ∧ reads "f(a,\n)" = some "f(a)" ∧
+    reads "f(a, )" = none ∧ reads "f(a,b,)" = none ∧ reads "f(a\n, b)" = none ∧
+    reads "f(,\n)" = some "f()" ∧ reads "f( )" = some "f()" ∧ reads "f (a)" = none := by
+  decide +kernel
+example : reads "a[\n1\n]" = some "a[1]" ∧ reads "a[ 1]" = none ∧ reads "a[1 ]" = none ∧
+    reads "a[\n 1]" = none ∧ reads "a [1]" = none ∧ reads "a.b.c" = some "a.b.c" ∧
+    reads "a. b" = none ∧ reads "a .b" = none ∧ reads "a.if" = none ∧ reads "a.iffy" = some "a.iffy" := by
+  decide +kernel
+/-- a symbol operator that starts with `.` directly behind its operand is not a field access,
+    and a digit run followed by `.name` is a number with a field -/
+example : reads "a.==b" = some "a .== b" ∧ reads "1.e5" = some "1.e5" ∧
+    reads "f(...a, b)" = some "f(...a, b)" ∧ reads "f(... a)" = none := by decide +kernel
+example : ¬ Frag (.dot xa "if") ∧ ¬ Frag (.spread xa) ∧ Frag (.call xf [.spread xa]) ∧
+    ¬ Frag (.call xf [.spread (.spread xa)]) := by decide +kernel
+
+/-! #### list literals -/
+
+private abbrev it (e : Expr) : Item := .mk [] e none
+/-- `[a, ...b, [], [1][a]] + f([c])` : items, a spread item, the empty list, a list under an
+    index, a list as an argument -/
+private abbrev u5 : Expr :=
+  .bin .add (.list [it xa, it (.spread xb), it (.list []), it (.access (.list [it one]) xa)])
+    (.call xf [.list [it xc]])
+example : Frag u5 := by decide +kernel
+example : exprToSource u5 = "[a, ...b, [], [1][a]] + f([c])" := by decide +kernel
+example : parseText (exprToSource u5) = some u5 := text_roundtrip u5 (by decide +kernel)
+example : reads "[a, ...b, [], [1][a]] + f([c])" = some "[a, ...b, [], [1][a]] + f([c])" := by
+  decide +kernel
+
+/-- the formatter's multi-line list layout `[⏎  a,⏎  ...b,⏎]` is a re-layout -/
+private abbrev u6 : Expr := .list [it xa, it (.spread xb)]
+private abbrev c6 : CST :=
+  .list [.lf, .sp, .sp]
+    (.cons false (.atom xa) [] [.lf, .sp, .sp] (.last true (.atom xb)))
+    (.comma [] [.lf])
+example : String.ofList c6.text = "[\n  a,\n  ...b,\n]" := by decide +kernel
+example : Relayout u6 c6 := ⟨by rfl, ⟨trivial, rfl, trivial⟩, rfl⟩
+example : parseText (String.ofList c6.text) = some u6 :=
+  (layout_insensitive u6 (by decide +kernel) c6 ⟨by rfl, ⟨trivial, rfl, trivial⟩, rfl⟩).2
+/-- `list` is non-atomic: blanks and PLAIN line breaks anywhere between its tokens except in
+    front of a comma (blanks only); a trailing comma needs no line break (unlike a call); a
+    comment must be followed by a line break, and the one behind an item (`eol_comment`) ends
+    the line, so no comma can follow it there -/
+example : reads "[ a , b ]" = some "[a, b]" ∧ reads "[a, ]" = some "[a]" ∧ reads "[a,]" = some "[a]" ∧
+    reads "[a\n, b]" = none ∧ reads "[,]" = some "[]" ∧ reads "[\n]" = some "[]" ∧
+    reads "[a,,]" = none ∧ reads "[a b]" = none := by decide +kernel
+example : reads "[a, // c\n b]" = some "[a, b]" ∧ reads "[a // c\n]" = some "[a]" ∧
+    reads "[a // c\n, b]" = none ∧ reads "[// c]" = none ∧ reads "[// c\n]" = some "[]" := by
+  decide +kernel
+/-- a `[` directly behind an operand is an index, behind an operator a list -/
+example : reads "a[b]" = some "a[b]" ∧ reads "a+[b]" = some "a + [b]" ∧
+    reads "[a][b]" = some "[a][b]" ∧ reads "a [b]" = none := by decide +kernel
+example : ¬ Frag (.list [.mk ["// c"] xa none]) ∧ ¬ Frag (.list [.mk [] xa (some "// c")]) ∧
+    Frag (.list []) := by decide +kernel
+
+/-! #### lambdas -/
+
+/-- C05-RELEVANT COROLLARY: the text the printer / the closure emitter writes for a lambda whose
+    body is in the fragment — `(args) => body`, the body in parentheses exactly when
+    `lambdaBodyNeedsParens` (a `via` / `into` / `where` on its left spine at the chain level) —
+    is read back to the same lambda; and that text is what `to_json` stores for it
+    (`lambdaSource`). -/
+theorem lambda_source_reparses (args : List LArg) (body : Expr)
+    (ha : (args.all fun a => nameOk a.name) = true) (hb : Frag body) :
+    parseText (exprToSource (.lambda args body)) = some (.lambda args body) ∧
+    lambdaSource args (parenIf (lambdaBodyNeedsParens body) (exprToSource body)) =
+      exprToSource (.lambda args body) := by
+  refine ⟨text_roundtrip _ (by simp only [Frag, frag_lambda_iff, ha, Bool.true_and]; exact hb), ?_⟩
+  simp only [lambdaSource, exprToSource, exprSrc, foldl_scopeRemove_nil]
+
+/-- why the parentheses are needed: without them the body ends in front of the chain operator
+    (`lambda_infix_usage` has no `via` / `into` / `where`), and the lambda becomes its LEFT
+    operand -/
+example : reads "(x) => a via f" = some "((x) => a) via f" ∧
+    reads "(x) => (a via f)" = some "(x) => (a via f)" ∧
+    reads "(x) => a and b" = some "(x) => a and b" ∧
+    reads "(x) => a where b and c" = some "((x) => a) where b and c" := by decide +kernel
+
+private abbrev xx : Expr := .ident "x"
+/-- `(x, y?, ...r) => (x via f and y) + [(z) => z][0](x)` : a chain operator on the left spine at
+    the chain level (parenthesised body), a lambda inside a list inside the body -/
+private abbrev u7 : Expr :=
+  .lambda [.req "x", .opt "y", .rest "r"]
+    (.bin .nand (.bin .via xx xf) (.ident "y"))
+example : Frag u7 := by decide +kernel
+example : exprToSource u7 = "(x, y?, ...r) => (x via f and y)" := by decide +kernel
+example : parseText (exprToSource u7) = some u7 :=
+  (lambda_source_reparses _ _ (by decide +kernel) (by decide +kernel)).1
+private abbrev u8 : Expr :=
+  .call xf [.lambda [.req "x"] (.bin .add xx one), .list [it (.lambda [] (.lambda [.req "z"] (.ident "z")))]]
+example : Frag u8 := by decide +kernel
+example : exprToSource u8 = "f((x) => x + 1, [() => (z) => z])" := by decide +kernel
+example : parseText (exprToSource u8) = some u8 := text_roundtrip u8 (by decide +kernel)
+
+/-- re-layout of a lambda: the parentheses around a single (required or optional) parameter
+    may go, blanks in front of `=>`, any layout behind it: `x  =>⏎  x + 1` -/
+private abbrev u9 : Expr := .lambda [.req "x"] (.bin .add xx one)
+private abbrev c9 : CST :=
+  .lambda (.bare (.req "x")) [.sp, .sp] [.lf, .sp, .sp] (.bin .add (.atom xx) [.sp] [.sp] (.atom one))
+example : String.ofList c9.text = "x  =>\n  x + 1" := by decide +kernel
+example : Relayout u9 c9 := ⟨by rfl, rfl, rfl, trivial, trivial, by decide +kernel⟩
+example : parseText (String.ofList c9.text) = some u9 :=
+  (layout_insensitive u9 (by decide +kernel) c9
+    ⟨by rfl, rfl, rfl, trivial, trivial, by decide +kernel⟩).2
+/-- `argument_list` is non-atomic (`( a , b? , ...r )`, even `x ?` and `... r`), with the
+    trailing-comma rule of `call_list`; no line break in front of `=>`; `lambda` comes before
+    `identifier` and `nested_expression` among the alternatives of `term` -/
+example : reads "( a , b? , ...r ) => a" = some "(a, b?, ...r) => a" ∧
+    reads "x ? => 1" = some "(x?) => 1" ∧ reads "... r => 1" = some "(...r) => 1" ∧
+    reads "(a,\n) => a" = some "(a) => a" ∧ reads "(a, ) => a" = none ∧
+    reads "x\n=> x" = none ∧ reads "x =>\n x" = some "(x) => x" ∧ reads "true => 1" = none ∧
+    reads "(a) + b" = some "a + b" ∧ reads "a ?? b" = some "a ?? b" ∧
+    reads "f(...r => 1)" = some "f(...(r) => 1)" := by decide +kernel
+example : ¬ Frag (.lambda [.req "if"] xx) ∧ ¬ Frag (.lambda [.req "a b"] xx) ∧
+    Frag (.lambda [.req "sqrt"] xx) := by decide +kernel
+
+/-! #### conditionals -/
+
+/-- `if a and b then if c then 1 else (x) => x else a + if b then c else 42` : a conditional in
+    the then-branch (its `else` is the nearest one), a lambda in an else-branch, a conditional
+    as a right operand; no parentheses anywhere (every part is an `expression`) -/
+private abbrev u10 : Expr :=
+  .cond (.bin .nand xa xb) (.cond xc one (.lambda [.req "x"] xx))
+    (.bin .add xa (.cond xb xc n42))
+example : Frag u10 := by decide +kernel
+example : exprToSource u10 =
+    "if a and b then if c then 1 else (x) => x else a + if b then c else 42" := by decide +kernel
+example : parseText (exprToSource u10) = some u10 := text_roundtrip u10 (by decide +kernel)
+example : items u10 = [.prim u10] := by rfl
+/-- a conditional as a LEFT operand or under a postfix operator is parenthesised by the printer
+    (`ends_open`): its else-branch would swallow what follows -/
+example : exprToSource (.bin .add (.cond xa xb xc) one) = "(if a then b else c) + 1" ∧
+    reads "(if a then b else c) + 1" = some "(if a then b else c) + 1" ∧
+    reads "if a then b else c + 1" = some "if a then b else c + 1" ∧
+    exprToSource (.cond xa xb (.bin .add xc one)) = "if a then b else c + 1" := by decide +kernel
+
+/-- the formatter's multi-line layouts are re-layouts: `if a then⏎  b⏎else⏎  c` and, when even
+    `if a then` does not fit, `if a⏎then⏎  b⏎else if …` (else-if chains stay flat) -/
+private abbrev u11 : Expr := .cond xa xb xc
+private abbrev c11 : CST :=
+  .cond [.sp] (.atom xa) [.sp] [.lf, .sp, .sp] (.atom xb) [.lf] [.lf, .sp, .sp] (.atom xc)
+example : String.ofList c11.text = "if a then\n  b\nelse\n  c" := by decide +kernel
+example : Relayout u11 c11 :=
+  ⟨by rfl, ⟨by simp, rfl, by simp, by simp, by simp, by simp⟩, trivial, trivial, trivial⟩
+example : parseText (String.ofList c11.text) = some u11 :=
+  (layout_insensitive u11 (by decide +kernel) c11
+    ⟨by rfl, ⟨by simp, rfl, by simp, by simp, by simp, by simp⟩, trivial, trivial, trivial⟩).2
+/-- `conditional` is atomic with explicit layout: a blank (not a line break) behind `if`,
+    layout on both sides of `then` / `else` (parentheses do not replace it) -/
+example : reads "if  a\nthen\n b\n else\tc" = some "if a then b else c" ∧
+    reads "if\na then b else c" = none ∧ reads "if(a) then b else c" = none ∧
+    reads "if a then(b) else c" = none ∧ reads "if (a)then b else c" = none ∧
+    reads "if a then b" = none ∧ reads "if a then b elsec" = none ∧ reads "iffy" = some "iffy" ∧
+    reads "x => if a then b else c via f" = some "(x) => if a then b else c via f" := by
+  decide +kernel
 end text
 
 end Blots.C10
